@@ -1,0 +1,14 @@
+//go:build !verif
+
+package rpc
+
+import (
+	lru "github.com/hashicorp/golang-lru/v2"
+	"golang.org/x/time/rate"
+)
+
+// Verification hooks (see verif_on.go); empty and inlinable without the `verif` build tag.
+
+func verifSem(chan struct{}) {}
+
+func verifCache(*lru.Cache[string, *rate.Limiter]) {}
